@@ -569,7 +569,44 @@ def split_tail(lst):
             del lst[-1]
 
 
+def _slice_pos(c, b, total, default):
+    """list position denoted by slice bound b (None / int / SInt) on a list of length
+    `total` (z3 term): Python's clamping rules, decided by forking"""
+    if b is None:
+        return default
+    z = zint(b)
+    if c.branch(z >= 0):
+        return z if c.branch(z <= total) else total
+    p = total + z
+    return p if c.branch(p >= 0) else z3.IntVal(0)
+
+
+def _boundary_index(c, lst, pos):
+    """index k such that the first k items of lst hold exactly `pos` elements"""
+    off = z3.IntVal(0)
+    for k in range(len(lst) + 1):
+        ok, _ = c.valid(pos == off)
+        if ok:
+            return k
+        if k < len(lst):
+            e = lst[k]
+            off = off + (zint(e.length) * len(e.items) if isinstance(e, Seg) else 1)
+    return None
+
+
 def list_getitem(lst, idx):
+    if isinstance(idx, slice) and idx.step is None and (isinstance(idx.start, SInt) or isinstance(idx.stop, SInt)
+                                                      or (has_seg(lst) and any(isinstance(x, int) and x < 0 for x in (idx.start, idx.stop)))):
+        c = ctx()
+        total = zint(sym_len(lst))
+        lo = _slice_pos(c, idx.start, total, z3.IntVal(0))
+        hi = _slice_pos(c, idx.stop, total, total)
+        if not c.branch(lo < hi):
+            return []
+        i, j = _boundary_index(c, lst, lo), _boundary_index(c, lst, hi)
+        if i is None or j is None:
+            raise Unsupported("slice bound of a list with segments does not provably fall on an item boundary")
+        return list(lst[i:j])
     if isinstance(idx, slice):
         if not has_seg(lst):
             if any(isinstance(x, SInt) for x in (idx.start, idx.stop, idx.step)):
@@ -651,8 +688,11 @@ def str_method(obj, name, args, kwargs):
         ctx().assume(n >= 1)
         return Opaque(("split", obj.tag, args[0]), list, len=lambda o: SInt(n), truthy=True,
                       unpack=lambda o, k: [Hole((obj.tag, "piece", i), "str") for i in range(k)])
-    if name == "startswith" and len(args) == 1 and isinstance(args[0], str) and len(args[0]) == 1:
-        return t_edge_char_eq(obj, args[0], last=False)
+    if name in ("startswith", "endswith") and len(args) == 1 and isinstance(args[0], str) and len(args[0]) == 1:
+        t = as_tmpl(obj)
+        if not t.parts:
+            return False
+        return t_edge_char_eq(obj, args[0], last=(name == "endswith"))
     raise Unsupported(f"string method {name} on symbolic string")
 
 
